@@ -842,9 +842,9 @@ func (u *connectUnaryUnmarshaler) UnmarshalFunc(message any, unmarshal func([]by
 		// Attempt to read to end in order to allow connection re-use
 		discardedBytes, err := io.Copy(io.Discard, u.reader)
 		if err != nil {
-			if connectErr, ok := asError(err); ok {
-				// Already coded: the call was canceled or timed out while we
-				// were draining the body.
+			if connectErr, ok := asError(wrapIfContextError(err)); ok {
+				// The call was canceled or timed out while we were draining the
+				// body (a bare HTTP body reports that as an uncoded context error).
 				return connectErr
 			}
 			return errorf(CodeInvalidArgument, "message is larger than configured max %d - unable to determine message size: %w", u.readMaxBytes, err)
